@@ -43,12 +43,16 @@ func init() {
 			add("Squeeze", s, 1, true, false)
 			add("Unsqueeze", s, 2, true, false)
 		}
+		for _, op := range []string{"Reshape", "Flatten", "Squeeze", "Unsqueeze", "Shape"} {
+			p.Jobs = append(p.Jobs, Job{Harness: "opset13.H_C07_types", Case: map[string]interface{}{"op": op}})
+		}
 		p.Bounds = []string{
+			"element types: the input gate of each of the five operators with the data input's element type as one solver variable over all 14 tensor element types (integers, floats, complex, string, bool)",
 			"input shapes: rank 0..4 from a fixed list (thorough: all shapes of rank 0..3 with extents {1,2,3} plus rank 4/5 samples); element types rotated over float32/int64/bool/uint8/float64; every element symbolic",
 			"phase B (solver-enumerated finite domains): Reshape targets of length 1..2 (3 thorough) with entries in [-2, total+1]; Flatten axis in [-rank-2, rank+2] or absent; Squeeze axes tensors of length 1..2 (3) with entries in [-rank-1, rank] or no axes input; Unsqueeze axes of length 1..2 with entries in [-R-1, R]",
 			"phase A (full int64 range): the same harnesses with unconstrained int64 entries, followed up to the first gorgonia call: finds panics / missing range checks in gonnx's own arithmetic for any of the 2^64 values",
 		}
-		p.Outside = []string{"target / axes lists longer than 3", "rank-0 shape/axes tensors", "element types other than the five listed", "extents > 3"}
+		p.Outside = []string{"target / axes lists longer than 3", "rank-0 shape/axes tensors", "VALUES of element types other than the five listed (the gate is checked for all 14)", "extents > 3"}
 		p.Explanation = "Reshape/Flatten/Squeeze/Unsqueeze/Shape Apply paths with processShape, insertOnes, getNewShape, AllInRange, OffsetArrayIfNegative, HasDuplicates executed symbolically; Clone/Reshape by the real gorgonia"
 		return p
 	}
